@@ -131,4 +131,6 @@ Definition data_wf (i : input) : bool :=
    in map iteration order) *)
 Definition meta_wf (i : input) : bool := nodup_str (map (fun kv => canon (fst kv)) (meta_of i)).
 Definition input_wf (i : input) : bool :=
-  ttl_in_range (i_ttl i) && data_wf i && meta_wf i && negb (str_eqb (i_ver i) "").
+  ttl_in_range (i_ttl i) && data_wf i && meta_wf i && negb (str_eqb (i_ver i) "") &&
+  (* c.Errors exists in the gin chain only *)
+  match i_impl i, i_ctx_errs i with Gin, _ => true | _, [] => true | _, _ => false end.
